@@ -862,7 +862,6 @@ func evalActionDelete(node *ActionExpression, env *Environment) Object {
 		}
 
 		if obj == UNDEFINED {
-			env.Set(id.Value, val)
 			return obj
 		}
 
